@@ -18,6 +18,7 @@ import numpy as np
 from common import *
 from simlib import *
 from jaxley.integrate import build_init_and_step_fn
+from simmodel import check_simulates_tables
 
 
 def full_trajectory(mod, sig_row, sig, dt, backend):
@@ -166,6 +167,9 @@ def run(args):
             R.spec_fail(dict(kind="integrate-raises-with-clamps", err=type(ex).__name__), f"integrate raises {type(ex).__name__} with clamps on {[(s, i) for s, i, _ in targets]}: {str(ex)[:200]}", inp, repr(ex)[:300])
             mod.base.externals.clear(); mod.base.external_inds.clear(); continue
         R.evaluations += 1
+        # the recorded traces (clamped v / gate / synaptic states included) are those of the Lean model of the whole simulation run
+        # on the module's TABLES: every recording reads the requested row, every clamp lands on its row and time step
+        check_simulates_tables(R, drv, mod, dict(inp, block="clamps"), backend=backend, kind="recordings-differ-from-table-simulation")
         for r, (s, i, vals) in enumerate(targets):
             if not np.allclose(rc[r, 1:], vals, rtol=0, atol=0):
                 R.spec_fail(dict(kind="clamp-does-not-hold", state="v" if s == "v" else "gate" if s == gate else "synapse"), f"clamped {s} at index {i} deviates from its clamp samples", dict(state=s, index=i, **inp), float(np.max(np.abs(rc[r, 1:] - vals))))
@@ -187,6 +191,7 @@ def run(args):
         for r_, s_ in zip(rows, sigs):
             mod.select(nodes=[r_]).stimulate(jnp.asarray(s_), verbose=False)
         via_a = np.asarray(jx.integrate(mod, voltage_solver=backend, delta_t=dt), dtype=np.float64)
+        check_simulates_tables(R, drv, mod, dict(inp, block="stimuli", rows=rows), backend=backend, dt=dt, kind="recordings-differ-from-table-simulation")
         mod.delete_stimuli()
         ds = None
         for r_, s_ in zip(rows, sigs):
